@@ -5,6 +5,7 @@
 package vtime
 
 import (
+	"sync"
 	"time"
 
 	"github.com/jonboulle/clockwork"
@@ -92,9 +93,34 @@ type Ticker struct {
 	rt *time.Ticker
 }
 
+// chans of the fake tickers/timers created so far (harness barrier: Unread() == 0 means every delivered tick
+// has been taken by its receiver)
+var (
+	regMu sync.Mutex
+	reg   []<-chan Time
+)
+
+func register(c <-chan Time) {
+	regMu.Lock()
+	reg = append(reg, c)
+	regMu.Unlock()
+}
+
+// Unread returns the number of ticks/timer firings of the fake clock that nobody has received yet.
+func Unread() int {
+	regMu.Lock()
+	defer regMu.Unlock()
+	n := 0
+	for _, c := range reg {
+		n += len(c)
+	}
+	return n
+}
+
 func NewTicker(d Duration) *Ticker {
 	if c := Clock; c != nil {
 		t := c.NewTicker(d)
+		register(t.Chan())
 		return &Ticker{C: t.Chan(), ck: t}
 	}
 	t := time.NewTicker(d)
@@ -124,6 +150,7 @@ type Timer struct {
 func NewTimer(d Duration) *Timer {
 	if c := Clock; c != nil {
 		t := c.NewTimer(d)
+		register(t.Chan())
 		return &Timer{C: t.Chan(), ck: t}
 	}
 	t := time.NewTimer(d)
